@@ -1,7 +1,8 @@
 /- C07 line-protocol driver: prints `model <TAB> spec` for each case line.
 
    new kind=var alts=<letters of i f t m> n=N       N default-constructed variants ("slots")
-       emplace s=K i=I v=N [via=type]   assign|ctor s=K from=J mv=0|1   swap s=K with=J   rel s=K with=J
+       emplace s=K i=I v=N [via=type]   make s=K i=I v=N (variant(in_place_index<I>, ..))
+       assign|ctor s=K from=J mv=0|1   swap s=K with=J   rel s=K with=J
        conv s=K a=<i s l f t m c d a b q x> v=N how=ctor|assign [cat=l|r]
                                        converting constructor / assignment from a named object `a` of that type, as an lvalue
                                        (cat=l) or `std::move(a)` (default); the answer is `ok a=<a afterwards>` or `nc`
@@ -15,11 +16,21 @@
        has s=K   value_or s=K v=N [mv=1]   and_then s=K f=inc|none   or_else s=K [v=N] [mv=1]   ocat s=K q=Q [take=1]
    new kind=oref n=N                                optional<int&> slots over three int cells
        bind s=K c=C how=ctor|assign|emplace   null s=K how=..   reset s=K   assign|ctor   swap   write s=K v=N
-       get s=K   rel s=K with=J   reln s=K   conv s=K
+       get s=K   rel s=K with=J   reln s=K
+       conv s=K how=ctor|implicit|assign src=ref|cref|rref|val|cval [pre=C]
+                                       optional<int const&> direct- / copy-initialized from, or (bound to cell C / empty
+                                       before) assigned from: slot K as non-const lvalue / const lvalue / rvalue
+                                       optional<int&>, or an optional<int> (non-const / const lvalue) holding a copy of
+                                       the referent of slot K (empty when the slot is); answer `-` or `<referent> p=1`
+                                       (p: the result points at the object the source holds), `nc` = does not compile
    new kind=exp alts=<TE> n=N                       expected<T,E> slots
        ctor_def|ctor_val|ctor_err s=K [v=N]   emplace s=K v=N   assign|ctor   swap   assign_unex s=K v=N
        has s=K   value_or s=K v=N [mv=1]   and_then s=K f=inc|fail [v=N]   or_else s=K f=recover|same [v=N]   ecat s=K q=Q
        rel s=K with=J (== and !=)   value s=K
+   new kind=sel                                     converting constructor / assignment: which alternative (no state)
+       sel a=<arg kind> alts=<alternative kinds> how=ctor|assign     answer: the index of the alternative held afterwards, or `nc`
+       kinds: b bool, h char, s short, i int, l long, u unsigned, f float, d double, p char const*, P int*, v void const*,
+       n nullptr_t, L string literal, e unscoped enum (: int), E scoped enum, T Text(char const*), N Num(int), I ToInt (operator int)
    every answer is followed by ` |` and the state of all slots.
 
    values: i int, l long, s short (payload = value); f float (payload p = p/2, 1000 = NaN); t Trk, m Mo
@@ -139,16 +150,16 @@ def relOps : RelOps Val Val := fun r a b =>
      | .gt => decide (x > y) | .ge => decide (x ≥ y))
   | _, _ => r == .ne
 
-/-- implicit conversion sequence argument type → alternative type (see Model.Cand) -/
-def convTab (a t : Ty) : Option Cand :=
-  if a == t then some ⟨0, false⟩
-  else match a, t with
-    | .sht, .int => some ⟨1, false⟩                      -- integral promotion
-    | .int, .lng | .sht, .lng => some ⟨2, false⟩         -- widening integral conversion
-    | .lng, .int | .int, .sht | .lng, .sht => some ⟨2, true⟩
-    | .int, .flt | .sht, .flt | .lng, .flt => some ⟨2, true⟩   -- integer → floating: narrowing
-    | .flt, .int | .flt, .lng | .flt, .sht => some ⟨2, true⟩   -- floating → integer: narrowing
-    | _, _ => if a.isArith && t.isClass then some ⟨3, false⟩ else none    -- Trk(int), Mo(int), Sm(int): user-defined
+/-- the kind of an element type of the harness (Model.K): Trk, Mo and the Sm kinds are distinct classes with an
+    implicit constructor from `int` -/
+def kOf : Ty → K
+  | .int => .int | .lng => .long | .sht => .short | .flt => .float
+  | .trk => .fromInt 0 | .mo => .fromInt 1
+  | .kc => .fromInt 2 | .kd => .fromInt 3 | .ka => .fromInt 4 | .kb => .fromInt 5 | .kq => .fromInt 6 | .kx => .fromInt 7
+  | .null => .nullp
+
+/-- implicit conversion sequence argument type → alternative type: the candidate table of the model (Model.candK) -/
+def convTab (a t : Ty) : Option Cand := candK (kOf a) (kOf t)
 
 /-- `is_constructible_v<T, A>` for the element types of the harness -/
 def ctorOK (a t : Ty) : Bool :=
@@ -236,6 +247,14 @@ def stepVar (lv : Live) (st : List (V Val)) (l : Line) : Option (DState × Strin
         if (l.get? "via").isSome && lv.tys.count t != 1 then fin lv (.ok ("nc", st)) "nc" lv else
         fin lv ((mop lv st (.emplace k i x)).map fun st' => ("ret=" ++ showV x, st')) ("ret=" ++ showV x)
           { lv with s := Spec.step el fb lv.s (.emplace k i x) }
+    | _, _, _ => none
+  | "make" =>
+    -- slot k is replaced by `variant(in_place_index<I>, mk<T_I>(n))`
+    match l.nat? "s", l.nat? "i", l.int? "v" with
+    | some k, some i, some n =>
+      (tyAt lv i).map fun t =>
+        let x := mkArg t n
+        fin lv ((mop lv st (.make k i x)).bind ok) "ok" { lv with s := Spec.step el fb lv.s (.make k i x) }
     | _, _, _ => none
   | "assign" | "ctor" =>
     match l.nat? "s", l.nat? "from", l.nat? "mv" with
@@ -797,11 +816,60 @@ def stepRef (lv : Live) (l : Line) : Option (DState × String) :=
         some (out lv ((bitsP fun r => optRelNullR r v) ++ (bitsP fun r => optRelNullL r v))
           ((bitsP fun r => Spec.optRel relOps r sv (none : Option Val)) ++ (bitsP fun r => Spec.optRel relOps r (none : Option Val) sv)))
       | _, _ => none
-  | "conv" =>   -- optional<U const&>(optional<U&>) does not compile: known finding F-C07-optional-ref-conversion
-    (l.nat? "s").bind fun k =>
-      match lv.sr[k]? with
-      | some sa => some (out lv "nc" (match refV lv.scells sa with | some x => showV x | none => "-"))
-      | none => none
+  | "conv" =>
+    -- optional<T&>(optional<U> const&) / operator=(optional<U> const&): Model.orefConv on the address the source holds
+    -- (its `_ptr`; for an optional<int> source the address of its storage, placed behind the cells), P2988 wording =
+    -- Spec.orefConv.  Which overload the source form selects is the compiler's (validated by R1 on every form).
+    match l.nat? "s", l.str? "how", l.str? "src" with
+    | some k, some how, some src =>
+      let pre := l.nat? "pre"
+      if !(["ctor", "implicit", "assign"].contains how) || !(["ref", "cref", "rref", "val", "cval"].contains src) then none
+      else if (l.get? "pre").isSome && (how != "assign" || (pre.getD lv.mcells.length) ≥ lv.mcells.length) then none
+      else
+      match lv.mr[k]?, lv.sr[k]? with
+      | some a, some sa =>
+        let isVal := src == "val" || src == "cval"
+        let side (cells : List Int) (p : Option Nat) : List Int × Option Nat :=
+          if isVal then
+            match p.bind (cells[·]?) with
+            | some v => (cells ++ [v], some cells.length)
+            | none => (cells, none)
+          else (cells, p)
+        let ms := side lv.mcells a
+        let ss := side lv.scells sa
+        let sh (mem : List Int) (want r : Option Nat) : String :=
+          match r with
+          | none => "-"
+          | some q =>
+            if some q == want then (match mem[q]? with | some v => showV (mkV .int v) ++ " p=1" | none => "oob")
+            else "engaged p=0"
+        let m := match orefConv ms.2 with
+          | .ok r => sh ms.1 ms.2 r
+          | .error e => e.fmt
+        some (out lv m (sh ss.1 ss.2 (Spec.orefConv ss.2)))
+      | _, _ => none
+    | _, _, _ => none
+  | _ => none
+
+/-- kinds of the selector probes (`new kind=sel`) -/
+def kindOf : Char → Option K
+  | 'b' => some .bool | 'h' => some .char | 's' => some .short | 'i' => some .int | 'l' => some .long | 'u' => some .uint
+  | 'f' => some .float | 'd' => some .double | 'p' => some .cptr | 'P' => some .iptr | 'v' => some .vptr
+  | 'n' => some .nullp | 'L' => some .lit | 'e' => some .uenum | 'E' => some .senum
+  | 'T' => some (.fromPtr 0) | 'N' => some (.fromInt 0) | 'I' => some .toInt
+  | _ => none
+
+/-- `variant<alts...>(forward<A>(a)).index()` / after `v = forward<A>(a)`: model = the selector of the library
+    (Model.selectK), spec = [variant.ctor]/14 (Spec.selectK, = Spec.selects by Props.selectK_eq); both forms select alike -/
+def stepSel (l : Line) : Option String :=
+  match l.op with
+  | "sel" =>
+    match (l.str? "a").bind (fun s => s.toList.head?.bind kindOf), (l.str? "alts").bind (fun s => s.toList.mapM kindOf), l.str? "how" with
+    | some a, some alts, some how =>
+      if alts.isEmpty || !(how == "ctor" || how == "assign") || [K.lit, .toInt].any alts.contains then none else
+      let f (o : Option Nat) : String := match o with | some i => toString i | none => "nc"
+      some (f (selectK a alts) ++ " |\t" ++ f (Spec.selectK a alts) ++ " |")
+    | _, _, _ => none
   | _ => none
 
 def newLive (l : Line) : Option Live :=
@@ -820,7 +888,8 @@ def newLive (l : Line) : Option Live :=
                            m := .ok [], s := [], so := [], se := [], part := [], mr := [], sr := [], mcells := [], scells := [] }
       match kind with
       | "var" =>
-        if !(["if", "fi", "it", "ti", "tif", "ift", "tm", "iftm", "fm", "ic", "id", "ia", "ib", "qx", "cb", "ii"].contains alts) then none else
+        if !(["if", "fi", "it", "ti", "tif", "ift", "tm", "iftm", "fm", "ic", "id", "ia", "ib", "qx", "cb", "ii",
+                  "tit", "qiq", "mm"].contains alts) then none else
         let d : V Val := ⟨0, mkV (tys.headD .int) 0⟩
         some { base with m := .ok (List.replicate n d), s := List.replicate n d }
       | "opt" =>
@@ -835,6 +904,7 @@ def newLive (l : Line) : Option Live :=
       | "oref" =>
         some { base with mr := List.replicate n none, sr := List.replicate n none,
                          mcells := [10, 20, 30], scells := [10, 20, 30] }
+      | "sel" => some base
       | _ => none
   | none => none
 
@@ -844,7 +914,8 @@ def step (st : DState) (l : Line) : DState × String :=
     match newLive l with
     | none => (none, "bad-op\tbad-op")
     | some lv =>
-      if lv.kind == "oref" then
+      if lv.kind == "sel" then (some lv, "ok |\tok |")
+      else if lv.kind == "oref" then
         (some lv, "ok |" ++ fmtRef lv.mr lv.mcells ++ "\tok |" ++ fmtRef lv.sr lv.scells)
       else
         match lv.m with
@@ -854,7 +925,8 @@ def step (st : DState) (l : Line) : DState × String :=
     match st with
     | none => bad
     | some lv =>
-      if lv.kind == "oref" then (stepRef lv l).getD bad
+      if lv.kind == "sel" then (match stepSel l with | some r => (st, r) | none => bad)
+      else if lv.kind == "oref" then (stepRef lv l).getD bad
       else
         match lv.m with
         | .error e => (st, e.fmt ++ "\t*")
